@@ -23,7 +23,8 @@ TECHNIQUE = (
     "reply and state by state with the recording"
 )
 LEVEL_TEXT = (
-    "Exploration: generated histories of 5..60 requests (session changes, seed/key pairs with fresh seeds, resets, reads/writes/routines, "
+    "Exploration: generated histories of 5..60 requests (session changes, seed/key pairs with fresh seeds - the sendKey request mostly with the right key, now and then with one byte too many "
+    "or with no key bytes at all (length probing), which about 40 % of the scripted ECUs accept for one to three of their levels (levels whose key is empty) and every other ECU refuses -, resets, reads/writes/routines, "
     "tester present, DTC services, suppressed requests, arbitrary bytes; the active session is read with 22 F186 alone or in one ReadDataByIdentifier together with other identifiers, "
     "first, between or last) against RandomUDSServer models (seeds x parameter sets) and "
     "scripted ECUs (spontaneous session fallback, malformed, mismatching and missing replies; they answer a read of several identifiers with the records of those they would answer singly, "
@@ -39,7 +40,9 @@ LEVEL_TEXT = (
     "properties, by string properties or both; every property set also holds a bytes value (ECUProperties subclass with a bytes field: empty, up to 8, 9..16, 17..40 bytes; the values of the ECUs of one file "
     "are distinct but often share their first 8..20 bytes) and about half of the recordings that such a value singles out are replayed once more selected by it (its hexadecimal digits); family 'update': one ECU (one name, one url) recorded with two software generations (two runs whose properties_pre differ in "
     "sw_version, in the nullable variant or in both, same state machine, other reply bytes, recorded in either order), optionally next to another ECU that carries the property "
-    "set of one of the two runs, each run replayed with name AND properties (and with the properties alone when no other ECU carries them; never with the name alone). "
+    "set of one of the two runs, each run replayed with name AND properties (and with the properties alone when no other ECU carries them; never with the name alone); "
+    "in families 'update' and multi/same-ECU the two runs of the one ECU (same url, recorded one right after the other) are in most files recorded by ONE DBHandler / run_meta (one script invocation that calls "
+    "insert_scan_run and insert_scan_run_properties_pre a second time for the same target) instead of a handler each. "
     "ECU names (any text is a name): per file either plain distinct names or names that are easily taken for one another - differing only in letter case, equal except where one has '_' "
     "for one character of the other, or '%' for a run of characters (possibly none) of the other - assigned to the ECUs in random order, so that the ECU replayed by such a name "
     "was recorded before, after or interleaved with the other ECU, which answers the same requests with other bytes. Held = every replay produced the recorded bytes (silence where none was recorded) and the "
@@ -52,7 +55,8 @@ LEVEL_NOTE = (
 RULE = (
     "cases = (ECU model or script [software generation], history seed, database layout incl. the class of ECU names, selector); one case = one record/replay pair; non-trivial = the recording "
     "leaves the default state or repeats a request with another answer; the recording client (stock / vendor subclass), the ECU's attitude to the suppress bit and the number of address rows per ECU name "
-    "are drawn per recording / per file from the history seed, not extra cases; so are the bytes property values and the form of the ECU's 0xF186 record; distinct = distinct (history seed, layout, selector); "
+    "are drawn per recording / per file from the history seed, not extra cases; so are the bytes property values, the form of the ECU's 0xF186 record, the ECU's levels with an empty key and whether "
+    "the two runs of one ECU share one DBHandler; distinct = distinct (history seed, layout, selector); "
     "distinct_traces = distinct (request kind, reply kind, client state) sequences; evaluations = replayed steps compared. After the first "
     "difference of a pair the rest of that replay is not judged (it is a consequence). A replay difference under selection by name is keyed replay/wrong-recording-selected/... "
     "when the file shows that a scan run points to the address row of another url than the one it was recorded against."
@@ -84,6 +88,10 @@ ASSUMPTIONS = [
     "replay/raises/OverflowError/session-number-beyond-sqlite-integer (key used only for an OverflowError while the logged session number is outside that range; any other raise keeps replay/raises/<type>)",
     "an ECU recorded twice under one name (families multi/same-ECU and update) whose own 0xF186 record is the session byte alone is never asked for 0xF186 as the FIRST of several identifiers: the client "
     "forgets the security level when the session number it reads changes, and with a one-byte record it could not tell the ECU's level afterwards (the assumption above on two recordings under one ECU name: the client sees the ECU's state completely)",
+    "a scripted ECU may have security levels whose key has no bytes: it answers '27 <level+1>' without key bytes with '67 <level+1>' and is then unlocked (the client's ECU.update_state follows every positive "
+    "SecurityAccess reply with an even sub-function; the statement presupposes that the replaying server does the same, whatever the request looked like); any other key is refused there",
+    "one connected DBHandler may record several scan runs one after the other (insert_scan_run + insert_scan_run_properties_pre again, also for the target it has just recorded): each call starts a scan_run row "
+    "of its own, and each run is replayed by its own properties; a replay difference of a recording whose scan_run id is also that of another recording is keyed replay/reply-differs/scan-run-row-shared-with-another-recording/...",
     "'clean' histories never provoke silence while the client is outside the default state and never suppress a session change or reset (asking an ECU that ignores the bit is not suppressing); 'any' histories do",
 ]
 EXHAUSTIVE = {"quick": False, "thorough": False}
@@ -181,6 +189,15 @@ def required_reach(tier: str) -> dict[str, int]:
         "directed.long-session-record": 6 * k, "directed.long-session-record.own-record": 3 * k, "directed.long-session-record.several-identifiers": 3 * k,
         "directed.long-session-record.session-number-beyond-signed-64-bit.two-or-more-requests-recorded-in-that-state": 5 * k,
         "directed.long-session-record.session-number-of-8-bytes.two-or-more-requests-recorded-in-that-state": 1 * k,
+        # sendKey requests without key bytes (length probing, levels whose key is empty), refused and accepted; requests recorded in the level so unlocked
+        "hist.send-key-without-key-bytes": 100 * k, "hist.send-key-without-key-bytes.refused": 40 * k, "hist.send-key-without-key-bytes.answered-positively": 50 * k,
+        "hist.send-key-without-key-bytes.answered-positively.and-requests-recorded-in-the-unlocked-state": 50 * k,
+        "replay.history-has-send-key-without-key-bytes.answered-positively.and-requests-recorded-in-the-unlocked-state": 50 * k,
+        # one DBHandler (one script invocation / run_meta) records two scan runs against the same target, each replayed
+        "db.two-scan-runs-of-one-target-recorded-through-one-handler": 8 * k, "db.two-scan-runs-of-one-target-recorded-through-one-handler.property-sets-differ": 5 * k,
+        "db.two-scan-runs-of-one-target-recorded-through-one-handler.property-sets-differ.answers-differ": 4 * k,
+        "replay.first-of-two-scan-runs-recorded-through-one-handler.other-run-has-other-properties": 8 * k,
+        "replay.second-of-two-scan-runs-recorded-through-one-handler.other-run-has-other-properties": 8 * k,
     }
 
 
@@ -189,8 +206,9 @@ class Gen:
     """history generator: reads the ECU model's offered services when there is one, the wire for outstanding seeds"""
 
     def __init__(self, rng: random.Random, clean: bool, pure: bool = False, pool: random.Random | None = None, answers_anyway: frozenset[int] = frozenset(),
-                 session_first: bool = True):
+                 session_first: bool = True, keyless: frozenset[int] = frozenset()):
         self.rng = rng
+        self.keyless = keyless  # security levels (requestSeed sub-functions) of this ECU whose key has no bytes
         self.clean = clean
         self.pure = pure  # never ask for suppression: the ECU's state stays what the client sees
         # False: never put 0xF186 first in a read of several identifiers (an ECU recorded twice under one name whose own 0xF186 record does not tell
@@ -233,7 +251,12 @@ class Gen:
         k = rng.random()
         if self.last_seed is not None and rng.random() < 0.75:
             lvl, seed = self.last_seed
-            key = seed if rng.random() < 0.8 else seed + b"\x00"
+            kr = rng.random()
+            if lvl in self.keyless:
+                key = b"" if kr < 0.8 else seed
+            else:
+                # mostly the right key; now and then one byte too many, or (a tester probing the key length) a sendKey without any key bytes
+                key = seed if kr < 0.8 else seed + b"\x00" if kr < 0.93 else b""
             return bytes([0x27, (lvl + 1) | spr(0.08, 0x27)]) + key
         if k < 0.18:
             tg = (offered or {}).get(0x10) or []
@@ -273,9 +296,10 @@ class ScriptedECU:
     """An ECU that is not gallia's virtual ECU: session timer fallback, malformed / mismatching / missing replies."""
 
     def __init__(self, rng: random.Random, flavour: str, dids: list[int], sw: int = 0, ignores: frozenset[int] = frozenset(), rng_seed: str | None = None,
-                 directed: dict[str, Any] | None = None):
+                 directed: dict[str, Any] | None = None, keyless: frozenset[int] = frozenset()):
         self.rng = rng
         self.flavour = flavour
+        self.keyless = keyless  # levels whose key has no bytes: the sendKey request that unlocks them is '27 <level+1>' and nothing else
         self.ignores = ignores  # services whose suppressPosRspMsgIndicationBit this ECU ignores: it sends the positive reply all the same
         self.sw = sw  # software generation ('pure' only): same state machine, other answers (0 = the answers below as they stand)
         self.session = 1
@@ -327,7 +351,7 @@ class ScriptedECU:
                 # a function of (session, level, request) only: fixed seed per level, key accepted without a preceding seed request
                 if sf % 2 == 1:
                     pos = bytes([0x67, sf]) + bytes([sf, sf ^ 0x5A ^ self.sw, self.session])
-                elif q[2:] == bytes([sf - 1, (sf - 1) ^ 0x5A ^ self.sw, self.session]):
+                elif q[2:] == (b"" if sf - 1 in self.keyless else bytes([sf - 1, (sf - 1) ^ 0x5A ^ self.sw, self.session])):
                     self.level = sf - 1
                     pos = bytes([0x67, sf])
                 else:
@@ -335,7 +359,7 @@ class ScriptedECU:
             elif sf % 2 == 1:
                 self.seed = (sf, self.rng.randbytes(4))
                 pos = bytes([0x67, sf]) + self.seed[1]
-            elif self.seed is not None and sf == self.seed[0] + 1 and q[2:] == self.seed[1]:
+            elif self.seed is not None and sf == self.seed[0] + 1 and q[2:] == (b"" if self.seed[0] in self.keyless else self.seed[1]):
                 self.level, self.seed = sf - 1, None
                 pos = bytes([0x67, sf])
             else:
@@ -438,6 +462,15 @@ def long_session_record_case(hseed: str, dids: list[int]) -> dict[str, Any]:
 SUPPRESSIBLE = [0x10, 0x11, 0x27, 0x31, 0x3E]
 
 
+def keyless_levels(ecu_seed: str, p: float = 0.4) -> frozenset[int]:
+    """the security levels of the scripted ECU with this seed whose key has no bytes (a property of the ECU, so both recordings of one ECU
+    get the same set; own generator); empty for most ECUs"""
+    r = random.Random(f"{ecu_seed}/keyless")
+    if r.random() >= p:
+        return frozenset()
+    return frozenset(r.choice([[1], [3], [1, 3], [1, 3, 0x11], [0x11], [1, 0x11]]))
+
+
 def ignored_suppress_bits(ecu_seed: str, p: float) -> frozenset[int]:
     """the services for which the ECU with this seed sends its positive reply although the request asked to suppress it (a property of the ECU,
     so both recordings of one ECU get the same set); empty for most ECUs"""
@@ -526,6 +559,8 @@ class Recording:
         self.client_states: list[dict[str, Any]] = []  # after each step: session and security level as the recording client tracked them
         self.client: dict[str, Any] | None = None  # None = gallia's ECU class; else the vendor subclass (one more state attribute)
         self.ignores: frozenset[int] = frozenset()  # services for which the recorded ECU ignores the suppress bit
+        self.keyless: frozenset[int] = frozenset()  # security levels of the recorded ECU whose key has no bytes
+        self.handler_shared: str | None = None  # 'first' / 'second' of two scan runs that one DBHandler (one run_meta) recorded against this target
         self.errors: list[str | None] = []
         self.lost: list[str] = []
         self.scan_run: int | None = None
@@ -550,11 +585,13 @@ class Recorder:
         rec.ignores = ignored_suppress_bits(str(ecu_kind[1]), 0.3 if ecu_kind[0] == "rng" else 0.4 if pure else 0.5)
         rec.client = vendor_client_kind(f"{hseed}|{rec.target}|{rec.model_id}")
         own_record_tells_level = ecu_kind[0] == "script" and session_record_tail(str(ecu_kind[1])) is not None
+        if ecu_kind[0] == "script" and LONG_MARK not in hseed:
+            rec.keyless = keyless_levels(str(ecu_kind[1]))
         self.directed: dict[str, Any] | None = None
         if LONG_MARK in hseed:
             pure = True  # no suppressed requests: the replay gets as far as the long session read (a recorded silence makes the replaying server reset, a known finding of its own)
         self.gen = Gen(self.rng, clean, pure=pure, pool=random.Random(pool_seed) if pool_seed else None, answers_anyway=rec.ignores,
-                       session_first=not pure or own_record_tells_level)
+                       session_first=not pure or own_record_tells_level, keyless=rec.keyless)
         if LONG_MARK in hseed:
             self.directed = long_session_record_case(hseed, self.gen.dids)
             self.length = max(self.length, max(self.directed["forced"]) + 2)
@@ -572,11 +609,21 @@ class Recorder:
         self.rec.address_before = {"exists": bool(rows), "id": rows[0][0] if rows else None, "ecu_label": rows[0][1] if rows else None,
                                    "earlier_scan_runs": rows[0][2] if rows else 0}
 
-    async def start(self) -> bool:
-        """Script._db_insert_run_meta + UDSScanner.setup; False = gallia's database code refused (self.rec.failed says where)"""
+    async def start(self, inherited: Any = None) -> bool:
+        """Script._db_insert_run_meta + UDSScanner.setup; False = gallia's database code refused (self.rec.failed says where).
+        inherited: the connected DBHandler that has just recorded another scan run (same script invocation, same run_meta): this recording is its next scan run"""
         self.rec.first_on_file = not self.path.exists()
         try:
-            self.handler = await dh.open_handler(self.path, self.rec.target, script="vf.c12.record", before_scan_run=self.look_at_address)
+            if inherited is not None:
+                self.handler = inherited
+                try:
+                    self.look_at_address()
+                    await dh.guarded(self.handler.insert_scan_run(self.rec.target), "insert_scan_run")
+                except BaseException:
+                    await dh.force_close(self.handler)
+                    raise
+            else:
+                self.handler = await dh.open_handler(self.path, self.rec.target, script="vf.c12.record", before_scan_run=self.look_at_address)
             self.rec.scan_run = self.handler.scan_run
             try:
                 await dh.guarded(self.handler.insert_scan_run_properties_pre(make_props(self.rec.props)), "insert_scan_run_properties_pre")
@@ -608,7 +655,7 @@ class Recorder:
             self.tr = dh.ResponderTransport(responder)
         else:
             self.script = ScriptedECU(random.Random(f"{self.ecu_kind[1]}"), self.ecu_kind[2], self.gen.dids, sw=self.ecu_kind[3] if len(self.ecu_kind) > 3 else 0,
-                                      ignores=self.rec.ignores, rng_seed=str(self.ecu_kind[1]), directed=self.directed)
+                                      ignores=self.rec.ignores, rng_seed=str(self.ecu_kind[1]), directed=self.directed, keyless=self.rec.keyless)
             self.tr = dh.ResponderTransport(self.script)
         self.ecu = make_client(self.tr, self.handler, self.rec.client)
 
@@ -644,18 +691,24 @@ class Recorder:
         r.client_states.append({"session": st.session, "security_access_level": st.security_access_level})
         return True
 
-    async def finish(self, catch: dh.Catcher) -> None:
+    async def finish(self, catch: dh.Catcher, keep_open: bool = False) -> Any:
+        """keep_open: the script goes on to record another scan run through the same handler; the connected handler is returned"""
         if self.handler is None:
-            return
+            return None
         handler, self.handler = self.handler, None
-        try:
-            await dh.close_handler(handler)
-        except dh.HandlerStep as e:
-            self.rec.failed = e  # the rows of this recording may or may not be in the file
+        kept = None
+        if keep_open:
+            kept = handler
+        else:
+            try:
+                await dh.close_handler(handler)
+            except dh.HandlerStep as e:
+                self.rec.failed = e  # the rows of this recording may or may not be in the file
         self.rec.lost = catch.take_lost()
         if self.script is not None:
             self.rec.info["fallbacks"] = self.script.fallbacks
             self.rec.info["odd"] = {f"{k:04x}": v for k, v in self.script.odd.items()}
+        return kept
 
     async def abort(self) -> None:
         """something went wrong elsewhere: leave no connection (and no worker thread) behind"""
@@ -746,7 +799,9 @@ def judge(ctx: Any, rec: Recording, rows: list[dict[str, Any]], out: list[tuple[
         if got != want:
             row = rows[i] if len(rows) == len(rec.requests) else None
             stored = dh.unhex(row["response_pdu"]) if row is not None else None
-            if row is None:
+            if row is None and rec.scan_run is not None and any(o.scan_run == rec.scan_run for o in (others or [])):
+                cause = "scan-run-row-shared-with-another-recording"  # two recordings, one scan_run row: the file does not keep them apart
+            elif row is None:
                 cause = "row-not-recorded"
             elif stored != want:
                 cause = "row-not-byte-exact"
@@ -800,9 +855,20 @@ def survey(ctx: Any, rec: Recording) -> bool:
     other_answer = False
     trace = []
     long_reads = 0
+    keyless_unlocks_followed = 0
     prev = {"session": 1, "security_access_level": None}
-    for q, r, s in zip(rec.requests, rec.replies, rec.client_states):
+    for n, (q, r, s) in enumerate(zip(rec.requests, rec.replies, rec.client_states)):
         k = reply_kind(q, r)
+        if q[0] == 0x27 and len(q) == 2 and q[1] & 0x7F and (q[1] & 0x7F) % 2 == 0:
+            # a sendKey sub-function without key bytes (length probing; the one legal sendKey of a level whose key is empty)
+            ctx.reach("hist.send-key-without-key-bytes")
+            if k == "security-access" and r is not None and r[1] % 2 == 0:
+                ctx.reach("hist.send-key-without-key-bytes.answered-positively")
+                if s["security_access_level"] is not None and n + 1 < len(rec.requests):
+                    keyless_unlocks_followed += 1
+                    ctx.reach("hist.send-key-without-key-bytes.answered-positively.and-requests-recorded-in-the-unlocked-state")
+            elif r is not None and r[0] == 0x7F:
+                ctx.reach("hist.send-key-without-key-bytes.refused")
         trace.append((q[0], k, s["session"], s["security_access_level"]))
         if k == "session-change":
             ctx.reach("hist.session-change")
@@ -858,6 +924,7 @@ def survey(ctx: Any, rec: Recording) -> bool:
         prev = s
     ctx.trace(tuple(trace))
     rec.info["session_reads_with_longer_record"] = long_reads
+    rec.info["keyless_unlocks_followed"] = keyless_unlocks_followed
     return left_default or other_answer
 
 
@@ -1063,6 +1130,13 @@ async def one_database(ctx: Any, family: str, hseed: str, path: Path, catch: dh.
     discovery = several and rng2.random() < 0.5  # address rows exist up front and carry their ECU names before any recording
     label_between = (same_ecu or update) and not discovery and not interleaved and rng2.random() < 0.5
     extra_urls = [f"vf://c12/{hseed}/other{k}" for k in range(rng2.choice([0, 0, 1, 2]))] if discovery else []
+    # sixth layout stream: the two runs of one ECU (same url) are recorded by ONE script invocation - one DBHandler, one run_meta, insert_scan_run called
+    # a second time for the same target (e.g. a script that scans before and after a software update) - instead of by a handler each
+    rng6 = random.Random(hseed + "/one-handler")
+    twice = [n for n, r in enumerate(recorders) if (same_ecu or update) and r.rec in recs[:2]]
+    one_handler = (len(twice) == 2 and twice[1] - twice[0] == 1 and not interleaved and not two_urls and not label_between and rng6.random() < 0.8)
+    if one_handler:
+        recorders[twice[0]].rec.handler_shared, recorders[twice[1]].rec.handler_shared = "first", "second"
     # further addresses of recorded ECUs, never recorded over: found by the discovery run up front, or by a discovery run after the recordings
     alias_urls = [(f"vf://c12/{hseed}/alias{k}", rng4.choice(recs).name) for k in range(rng4.choice([0, 1, 1, 2]))] if discovery else []
     alias_after = [(f"vf://c12/{hseed}/alias-late", rng4.choice(recs).name)] if several and not discovery and rng4.random() < 0.3 else []
@@ -1090,6 +1164,7 @@ async def one_database(ctx: Any, family: str, hseed: str, path: Path, catch: dh.
             ctx.reach("db.scan-run-starts.address-row-already-exists.from-discovery-run-labelled-up-front")
 
     catch.take_lost()
+    kept_handler: Any = None  # the connected handler between the two scan runs it records
     try:
         if discovery:
             urls = sorted({r.target for r in recs}) + extra_urls + [u for u, _ in alias_urls]
@@ -1116,16 +1191,19 @@ async def one_database(ctx: Any, family: str, hseed: str, path: Path, catch: dh.
             ctx.reach("db.interleaved-recordings")
         else:
             for n, r in enumerate(recorders):
-                await r.start()
+                handed_on, kept_handler = kept_handler, None
+                await r.start(handed_on)
                 reach_address(r.rec)
                 while await r.step():
                     pass
-                await r.finish(catch)
+                kept_handler = await r.finish(catch, keep_open=one_handler and n == twice[0])
                 if label_between and n == 0:
                     label(r.rec.name, r.rec.target)
     finally:
         for r in recorders:
             await r.abort()
+        if kept_handler is not None:
+            await dh.force_close(kept_handler)
     for rec in recs:
         label(rec.name, rec.target)
     if alias_after:
@@ -1162,6 +1240,13 @@ async def one_database(ctx: Any, family: str, hseed: str, path: Path, catch: dh.
                           "a DBHandler step of the recording run raises or does not return: the recording is not (completely) in the database", what)
     if same_ecu:
         ctx.reach("db.same-ecu-recorded-twice")
+    if one_handler and all(r.failed is None for r in recs[:2]):
+        oh = "db.two-scan-runs-of-one-target-recorded-through-one-handler"
+        ctx.reach(oh)
+        if int_props(recs[0]) != int_props(recs[1]):
+            ctx.reach(f"{oh}.property-sets-differ")
+            if answered_otherwise(recs[0], recs[1]) or answered_otherwise(recs[1], recs[0]):
+                ctx.reach(f"{oh}.property-sets-differ.answers-differ")
     if update:
         ctx.reach("db.same-ecu-recorded-with-other-properties")
         ctx.reach(f"db.same-ecu-recorded-with-other-properties.differ-in:{differs}")
@@ -1224,7 +1309,9 @@ async def one_database(ctx: Any, family: str, hseed: str, path: Path, catch: dh.
                 "recording": j, "model": rec.model_id, "length": len(rec.requests), "nontrivial": nontrivial,
                 "ecu_names_in_file": sorted({o.name for o in recs}), "target": rec.target,
                 "properties_pre_in_file": (dh.sql(path, "SELECT properties_pre FROM scan_run WHERE id = ?", (rec.scan_run,)) or [(None,)])[0][0],
-                "address_rows_of_this_ecu_name": [[aid, url, f"{runs} scan runs"] for aid, url, runs in addresses_of.get(rec.name, [])]}
+                "address_rows_of_this_ecu_name": [[aid, url, f"{runs} scan runs"] for aid, url, runs in addresses_of.get(rec.name, [])],
+                "scan_run": rec.scan_run, "one_handler_recorded_two_scan_runs_of_this_target_this_is_the": rec.handler_shared,
+                "ecu_levels_whose_key_has_no_bytes": sorted(rec.keyless)}
         if update:
             case.update({"software_update": True, "update_changed_properties": differs, "other_ecu_has_properties_of_recording": shares_with,
                          "recorded_in_order": [recs.index(r.rec) for r in recorders]})
@@ -1317,6 +1404,12 @@ async def one_database(ctx: Any, family: str, hseed: str, path: Path, catch: dh.
                     ctx.reach("replay.recorded-by-vendor-ecu-class.non-trivial")
             if answered_anyway:
                 ctx.reach("replay.ecu-ignores-suppress-bit.and-history-has-such-a-reply")
+            if rec.handler_shared is not None:
+                ctx.reach(f"replay.{rec.handler_shared}-of-two-scan-runs-recorded-through-one-handler")
+                if twins:
+                    ctx.reach(f"replay.{rec.handler_shared}-of-two-scan-runs-recorded-through-one-handler.other-run-has-other-properties")
+            if rec.info.get("keyless_unlocks_followed"):
+                ctx.reach("replay.history-has-send-key-without-key-bytes.answered-positively.and-requests-recorded-in-the-unlocked-state")
             if rec.info.get("session_reads_with_longer_record"):
                 ctx.reach("replay.history-has-session-read-with-longer-record")
                 if any(s["session"] > 0xFF for s in rec.client_states[:-1]):
